@@ -36,7 +36,8 @@ RULE = ('Model-based stateful testing of Client / AsyncClient on the real '
         'between a binary header and its attachment, or a second connection '
         'after a fault. Application faults: a disconnect handler that raises '
         'or (asyncio) ends in CancelledError at its k-th invocation.'
-        ' Also generated: the application answers a loss with disconnect() (from the first disconnect handler; asyncio also from another task while that handler is suspended).')
+        ' Also generated: the application answers a loss with disconnect() (from the first disconnect handler; asyncio also from another task while that handler is suspended).'
+        ' The server can end every namespace with DISCONNECT packets dispatched while the handler of an earlier one still runs (re-entrant on the threaded client).')
 ASSUMPTIONS = [
     'reconnection is disabled here (C10 covers it)',
     'the disconnect-once clause is judged only when every requested '
